@@ -40,11 +40,17 @@ static void failk(const char *oracle, const char *op, const char *fmt, ...)
  * NUL in the middle (n >= 5) and a lone '\r' at n/3 (n >= 9).  Adding sizes
  * cap-1 / cap / cap+1 / 2 / 1 therefore puts CR|LF, CRLF|, C|RLF and runs of
  * CR LF across chain boundaries. */
-static void gen_payload(unsigned char *p, size_t n, int kind)
+#define PAY_MAX 16384
+static unsigned char PAYBASE[4][PAY_MAX];
+static void payload_init(void)
 {
 	static const char *letters[4] = { "abc", "bca", "cab", "rst" };
-	const char *l = letters[kind & 3];
-	for (size_t i = 0; i < n; i++) p[i] = l[(i + i / 3 + i / 17) % 3];
+	for (int k = 0; k < 4; k++)
+		for (size_t i = 0; i < PAY_MAX; i++) PAYBASE[k][i] = letters[k][(i + i / 3 + i / 17) % 3];
+}
+static void gen_payload(unsigned char *p, size_t n, int kind)
+{
+	memcpy(p, PAYBASE[kind & 3], n);
 	if (n >= 9) p[n / 3] = '\r';
 	if (n >= 5) p[n / 2] = 0;
 	if (n == 1) p[0] = '\n';
@@ -59,6 +65,7 @@ static void refmem_init(void)
 {
 	REFMEM = mmap(NULL, REF_BYTES, PROT_READ | PROT_WRITE, MAP_PRIVATE | MAP_ANONYMOUS, -1, 0);
 	if (REFMEM == MAP_FAILED) { perror("mmap"); exit(2); }
+	payload_init();
 	gen_payload(REFMEM, REF_BYTES, 3);
 	/* make shorter references end in CRLF too */
 	REFMEM[0] = 'r'; REFMEM[1] = '\n';
@@ -175,6 +182,11 @@ static void describe_buf(struct evbuffer *eb, char *out, size_t n)
 		o += snprintf(out + o, n - o, "[%zu:%lld+%zu%s%s]", c->buffer_len, (long long)c->misalign, c->off,
 		    (c->flags & EVBUFFER_IMMUTABLE) ? "i" : "", &c->next == eb->last_with_datap ? "<" : "");
 }
+
+/* a small quarantine keeps the working set (and page-fault time) small; an
+ * execution makes a few dozen allocations, so freed chunks still stay poisoned
+ * for hundreds of executions */
+const char *__asan_default_options(void) { return "quarantine_size_mb=4:thread_local_quarantine_size_kb=256"; }
 
 static void quiet_log(int sev, const char *msg) { (void)sev; (void)msg; }
 
